@@ -17,8 +17,10 @@ const PROPS: &[Prop] = &[
     Prop { id: "C05", level: "exploration", run: props::c05::run, replay: props::c05::replay },
     Prop { id: "C06", level: "exploration", run: props::c06::run, replay: props::c06::replay },
     Prop { id: "C07", level: "fault_enumeration", run: props::c07::run, replay: props::c07::replay },
+    Prop { id: "C08", level: "exploration", run: props::c08::run, replay: props::c08::replay },
     Prop { id: "C09", level: "exploration", run: props::c09::run, replay: props::c09::replay },
     Prop { id: "C10", level: "fault_enumeration", run: props::c10::run, replay: props::c10::replay },
+    Prop { id: "C11", level: "exploration", run: props::c11::run, replay: props::c11::replay },
 ];
 
 fn usage() -> ! {
